@@ -205,6 +205,39 @@ func C10(c *fw.Ctx) {
 				emit(j2)
 			}
 		}
+		// few directives through very many PASTE steps: a doubling chain of D macros on top of a chain of W macros that each paste the
+		// next one; 2^D directives come out of about 2^D * (W+2) PASTE steps (more than a million), the in-place form is 2^D lines
+		heavy := [][2]int{{12, 300}, {10, 1100}}
+		if !c.Quick() {
+			heavy = append(heavy, [2]int{14, 70}, [2]int{16, 16}, [2]int{8, 4200})
+		}
+		for _, dw := range heavy {
+			D, W := dw[0], dw[1]
+			var a, b strings.Builder
+			a.WriteString("JSIGHT 0.3\nGET /a\n")
+			for i := 0; i < 1<<uint(D); i++ {
+				a.WriteString("  404 any\n")
+			}
+			b.WriteString(fmt.Sprintf("JSIGHT 0.3\nGET /a\n  PASTE @d%d\n", D))
+			for k := D; k >= 1; k-- {
+				b.WriteString(fmt.Sprintf("MACRO @d%d\n(\n  PASTE @d%d\n  PASTE @d%d\n)\n", k, k-1, k-1))
+			}
+			b.WriteString(fmt.Sprintf("MACRO @d0\n(\n  PASTE @w%d\n)\n", W))
+			for k := W; k >= 1; k-- {
+				b.WriteString(fmt.Sprintf("MACRO @w%d\n(\n  PASTE @w%d\n)\n", k, k-1))
+			}
+			b.WriteString("MACRO @w0\n(\n  404 any\n)\n")
+			id := fmt.Sprintf("heavy-%d-%d", D, W)
+			maxMuLock.Lock()
+			pairs[id] = &pair{files: map[string][]byte{"root.jst": []byte(b.String())}, layout: map[string]string{"hand-made": fmt.Sprintf("%d directives through about %d PASTE steps", 1<<uint(D), (1<<uint(D))*(W+2))}}
+			maxMuLock.Unlock()
+			j1 := singleJob("plain/"+id, []byte(a.String()), false)
+			j1.Ops = []string{"json"}
+			j2 := singleJob("macro/"+id, []byte(b.String()), false)
+			j2.Ops = []string{"json"}
+			emit(j1)
+			emit(j2)
+		}
 		// part C: macro bodies that are not runs of siblings (see c10free.go)
 		fr := gen.Rng(c.Seed, c.ID, "free")
 		for i := 0; i < c.Pick(3000, 100000); i++ {
@@ -346,6 +379,9 @@ func C10(c *fw.Ctx) {
 		}
 		c.Count(jobKey(&proto.Job{Root: "root.jst", Files: p.files}), true)
 		c.Inc("part_a", "pairs", 1)
+		if strings.HasPrefix(id, "heavy-") {
+			c.Inc("part_a", "pairs-with-more-than-a-million-paste-steps", 1)
+		}
 		if strings.HasPrefix(id, "free-") {
 			c.Inc("part_c", "pairs", 1)
 			if p.plain.Accepted {
